@@ -304,6 +304,9 @@ def simpleImpl (id : Nat) (args : List VRes) : EM (Option Val) :=
   | 8, [.error _] => .ok none
   | 9, [.ok (.array _ xs)] => .ok (some (.int xs.length))             -- blen(Array(Bool))
   | 9, [.error _] => .ok (some (.int (-1)))
+  | 10, [.ok (.bytes a), .ok (.bytes b)] => .ok (some (.int (a.length + b.length)))  -- len2
+  | 10, [.ok (.bytes a), .error _] => .ok (some (.int ((a.length : Int) - 1)))
+  | 10, [.error _, _] => .ok none
   | _, _ => .error .badFunction
 
 /-- `concat_impl` -/
